@@ -1,1 +1,1061 @@
-fn main(){}
+//! C20 — presentation wrappers and serializer options change layout only, never data.
+//!
+//! For a value of the C13 grammar decorated with `FlowSeq`, `FlowMap`, `LitStr/LitString`,
+//! `FoldStr/FoldString`, `Commented`, `SpaceAfter` (nested, around containers, in keys) and an option
+//! vector `o` (metamorphic oracle on the real code):
+//!   R1  untyped(to_string_with_options(bare, o)) == untyped(to_string(bare))            (options)
+//!   R2  to_string_with_options(decorated, o) is one well-formed document and
+//!       untyped(decorated, o) == untyped(bare, o), typed read-back (`SchemaSeed`) gives the bare
+//!       value, and reading into the wrapper types (`Commented<Val>`, `FlowSeq<Val>`, ...) gives the
+//!       same tree.                                                                     (wrappers)
+//! Strings under an explicit fold wrapper are compared modulo one trailing line break; what the
+//! documentation declares lossy (folding of interior line breaks, `SpaceAfter` around `LitStr`) is
+//! counted as unspecified. Cases whose *bare* form already fails the C13 oracle give no verdict
+//! here (C13 reports them).
+
+mod deco;
+mod derived;
+
+use deco::{DSer, Decs, Path, Wrap};
+use serde_json::{Value, json};
+use std::cell::RefCell;
+use std::collections::{BTreeMap, HashMap};
+use vcore::Val;
+use vcore::rng::{Rng, fnv_parts};
+use vcore::run::{Finish, Run, par_range};
+use vcore::ty::{self, TSer, TVal, Ty, TyCfg, TyGrammar};
+use vcore::tygen::{self, Opt, Stage};
+
+// ------------------------------------------------------------------ pools
+
+fn long_text() -> String {
+    "a long comment text that goes on and on ".repeat(8)
+}
+
+/// (class name, text)
+fn comment_atoms() -> Vec<(&'static str, String)> {
+    vec![
+        ("word", "note".into()),
+        ("hash", "#".into()),
+        ("colon-space", ": ".into()),
+        ("dash-space", "- ".into()),
+        ("bracket", "]".into()),
+        ("brace", "}".into()),
+        ("doc-start", "---".into()),
+        ("doc-end", "...".into()),
+        ("single-quote", "'".into()),
+        ("double-quote", "\"".into()),
+        ("cr", "\r".into()),
+        ("lf", "\n".into()),
+        ("crlf", "\r\n".into()),
+        ("nel", "\u{85}".into()),
+        ("ls", "\u{2028}".into()),
+        ("ps", "\u{2029}".into()),
+        ("tab", "\t".into()),
+        ("spaces", "  a b  ".into()),
+        ("key-value", "y: 1".into()),
+        ("flow-map", "{a: 1}".into()),
+        ("flow-seq", "[x, y]".into()),
+        ("directive", "%YAML 1.2".into()),
+        ("anchor-alias", "&a *a".into()),
+        ("tag", "!t".into()),
+        ("block-indicators", "| >".into()),
+        ("non-ascii", "é✓".into()),
+        ("long", long_text()),
+    ]
+}
+
+fn content_lines() -> Vec<String> {
+    vec![
+        "x".into(),
+        "word word".into(),
+        " lead".into(),
+        "  lead2".into(),
+        "\tlead-tab".into(),
+        "".into(),
+        "a\tb".into(),
+        "w".repeat(100),
+        "v".repeat(1100),
+        format!("{} é é é", "é".repeat(78)),
+        "# not a comment".into(),
+        "k: v".into(),
+        "- item".into(),
+        "---".into(),
+        "...".into(),
+        "'q' \"d\"".into(),
+        "a  b   c".into(),
+        "the quick brown fox jumps over the lazy dog and keeps running for quite a while until the line is long enough to wrap".into(),
+        "tab\there and a rather long tail so that the wrap column falls somewhere after the tab character in this line".into(),
+    ]
+}
+
+fn random_content(rng: &mut Rng, lines: &[String]) -> String {
+    let n = rng.range(1, 4);
+    let mut parts: Vec<String> = Vec::new();
+    for _ in 0..n {
+        parts.push(rng.pick(lines).clone());
+    }
+    let mut s = parts.join("\n");
+    if rng.chance(1, 40) {
+        s.push_str("\rcr");
+    }
+    for _ in 0..*rng.pick(&[0usize, 0, 1, 1, 2, 3]) {
+        s.push('\n');
+    }
+    s
+}
+
+fn random_comment(rng: &mut Rng, atoms: &[(&'static str, String)]) -> String {
+    let n = *rng.pick(&[1usize, 1, 2, 2, 3, 4]);
+    let mut s = String::new();
+    for i in 0..n {
+        if i > 0 && rng.bool() {
+            s.push(' ');
+        }
+        s.push_str(&rng.pick(atoms).1);
+    }
+    s
+}
+
+// ------------------------------------------------------------------ tolerances
+
+#[derive(Clone, Copy, Debug, PartialEq, Eq)]
+enum Tol {
+    /// equal after removing at most one trailing line break on either side
+    Mod1,
+    /// equal after removing all trailing line breaks (documented lossy, counted as unspecified)
+    TrailingNl,
+    /// equal after collapsing runs of spaces / line breaks (documented folding, unspecified)
+    Folded,
+}
+
+fn strip1(s: &str) -> &str {
+    s.strip_suffix('\n').unwrap_or(s)
+}
+
+fn collapse(s: &str) -> String {
+    let mut out = String::new();
+    let mut in_ws = false;
+    for c in s.chars() {
+        if c == ' ' || c == '\n' {
+            in_ws = true;
+        } else {
+            if in_ws && !out.is_empty() {
+                out.push(' ');
+            }
+            in_ws = false;
+            out.push(c);
+        }
+    }
+    out
+}
+
+fn str_eq(expected: &str, actual: &str, tol: &HashMap<String, Tol>) -> bool {
+    if expected == actual {
+        return true;
+    }
+    match tol.get(expected) {
+        None => false,
+        Some(Tol::Mod1) => strip1(expected) == strip1(actual),
+        Some(Tol::TrailingNl) => expected.trim_end_matches('\n') == actual.trim_end_matches('\n'),
+        Some(Tol::Folded) => collapse(expected) == collapse(actual),
+    }
+}
+
+fn val_eq(e: &Val, a: &Val, tol: &HashMap<String, Tol>) -> bool {
+    match (e, a) {
+        (Val::Str(x), Val::Str(y)) => str_eq(x, y, tol),
+        (Val::Seq(x), Val::Seq(y)) => x.len() == y.len() && x.iter().zip(y).all(|(p, q)| val_eq(p, q, tol)),
+        (Val::Map(x), Val::Map(y)) => x.len() == y.len() && x.iter().zip(y).all(|((k1, v1), (k2, v2))| val_eq(k1, k2, tol) && val_eq(v1, v2, tol)),
+        _ => e == a,
+    }
+}
+
+fn tval_eq(e: &TVal, a: &TVal, tol: &HashMap<String, Tol>) -> bool {
+    match (e, a) {
+        (TVal::Str(x), TVal::Str(y)) => str_eq(x, y, tol),
+        (TVal::Some(x), TVal::Some(y)) => tval_eq(x, y, tol),
+        (TVal::Variant(i, x), TVal::Variant(j, y)) => i == j && tval_eq(x, y, tol),
+        (TVal::Seq(x), TVal::Seq(y)) | (TVal::Tuple(x), TVal::Tuple(y)) | (TVal::Struct(x), TVal::Struct(y)) => {
+            x.len() == y.len() && x.iter().zip(y).all(|(p, q)| tval_eq(p, q, tol))
+        }
+        (TVal::Map(x), TVal::Map(y)) => x.len() == y.len() && x.iter().zip(y).all(|((k1, v1), (k2, v2))| tval_eq(k1, k2, tol) && tval_eq(v1, v2, tol)),
+        _ => e == a,
+    }
+}
+
+/// The decorated case.
+#[derive(Clone, Debug)]
+struct Case {
+    ty: Ty,
+    v: TVal,
+    decs: Decs,
+    o: Opt,
+}
+
+impl Case {
+    fn to_json(&self, part: &str) -> Value {
+        json!({
+            "part": part,
+            "ty": self.ty.to_json(),
+            "ty_text": self.ty.to_string(),
+            "v": serde_json::to_string(&self.v).unwrap_or_default(),
+            "decorations": self.decs.to_json(),
+            "opt": self.o.to_json(),
+        })
+    }
+    fn hash(&self) -> u64 {
+        tygen::hash_case(&self.ty, &self.v, &self.o) ^ fnv_parts(&[&self.decs.hash_bytes()])
+    }
+}
+
+/// Tolerances of a case (by string content) and the unspecified classes they stand for.
+fn tolerances(c: &Case, unspecified: &mut Vec<&'static str>) -> HashMap<String, Tol> {
+    let mut tol: HashMap<String, Tol> = HashMap::new();
+    let sites = deco::sites(&c.ty, &c.v);
+    for (path, ws) in &c.decs.0 {
+        let Some(site) = sites.iter().find(|s| &s.path == path) else { continue };
+        // explicit fold wrapper on a string in value position
+        if let (Some(text), true) = (&site.text, ws.iter().any(|w| w.is_fold())) {
+            let folded = text.contains('\n') || text.len() >= c.o.min_fold_chars;
+            if folded {
+                let body = text.trim_end_matches('\n');
+                let trailing = text.len() - body.len();
+                if body.contains('\n') {
+                    tol.insert(text.clone(), Tol::Folded);
+                    unspecified.push("fold-wrapper:interior-line-breaks-are-folded(documented)");
+                } else if trailing >= 2 {
+                    tol.insert(text.clone(), Tol::TrailingNl);
+                    unspecified.push("fold-wrapper:several-trailing-line-breaks-are-clipped");
+                } else {
+                    tol.insert(text.clone(), Tol::Mod1);
+                }
+            }
+        }
+        // SpaceAfter whose last emitted leaf is an explicit literal string (documented caveat)
+        if ws.iter().any(|w| matches!(w, Wrap::SpaceAfter)) {
+            let last = deco::last_leaf(&c.ty, &c.v, path);
+            let lit_there = c.decs.0.get(&last).map(|ws| ws.iter().any(|w| w.is_lit())).unwrap_or(false);
+            if lit_there
+                && let Some(s) = sites.iter().find(|s| s.path == last)
+                && let Some(text) = &s.text
+            {
+                tol.entry(text.clone()).or_insert(Tol::TrailingNl);
+                unspecified.push("space-after-around-literal-wrapper(documented-caveat)");
+            }
+        }
+    }
+    tol
+}
+
+/// Tolerant contents must not also occur as an untolerated string elsewhere (the tolerance is
+/// looked up by content): drop the wrappers that would make that ambiguous.
+fn make_tolerances_unambiguous(c: &mut Case) {
+    let sites = deco::sites(&c.ty, &c.v);
+    let mut count: HashMap<&str, usize> = HashMap::new();
+    for s in &sites {
+        if let Some(t) = &s.text {
+            *count.entry(t.as_str()).or_insert(0) += 1;
+        }
+    }
+    let dup_paths: Vec<Path> = sites.iter().filter(|s| s.text.as_ref().map(|t| count[t.as_str()] > 1).unwrap_or(false)).map(|s| s.path.clone()).collect();
+    for p in dup_paths {
+        if let Some(ws) = c.decs.0.get_mut(&p) {
+            ws.retain(|w| !w.is_fold() && !w.is_lit());
+            if ws.is_empty() {
+                c.decs.0.remove(&p);
+            }
+        }
+    }
+}
+
+// ------------------------------------------------------------------ the oracle
+
+#[derive(Clone, Debug, PartialEq)]
+enum Outcome {
+    Held,
+    /// no verdict, with the reason
+    NoVerdict(String),
+    /// (effect class, detail)
+    Violated(&'static str, String),
+}
+
+fn read_val(text: &str) -> Result<Val, String> {
+    match vcore::obs::catch(|| serde_saphyr::from_str_with_options::<Val>(text, tygen::de_options())) {
+        Err(p) => Err(format!("panic: {p}")),
+        Ok(Err(e)) => Err(e.to_string().lines().next().unwrap_or("").to_string()),
+        Ok(Ok(v)) => Ok(v),
+    }
+}
+
+fn read_as<T: serde::de::DeserializeOwned>(text: &str) -> Result<T, String> {
+    match vcore::obs::catch(|| serde_saphyr::from_str_with_options::<T>(text, tygen::de_options())) {
+        Err(p) => Err(format!("panic: {p}")),
+        Ok(Err(e)) => Err(e.to_string().lines().next().unwrap_or("").to_string()),
+        Ok(Ok(v)) => Ok(v),
+    }
+}
+
+/// Text usable by the deserializer: the directive defect (C13's finding) is repaired so that the
+/// rest of the document can still be judged.
+fn usable(text: &str) -> String {
+    if tygen::directive_without_doc_start(text) { tygen::insert_doc_start(text) } else { text.to_string() }
+}
+
+struct Eval {
+    outcome: Outcome,
+    emitted: Option<String>,
+    unspecified: Vec<&'static str>,
+}
+
+fn evaluate(c: &Case) -> Eval {
+    let mut unspecified = Vec::new();
+    let ev = |outcome: Outcome, emitted: Option<String>, unspecified: Vec<&'static str>| Eval { outcome, emitted, unspecified };
+    // reference: the bare value under the same options must satisfy the C13 oracle
+    let rt = tygen::roundtrip(&c.ty, &c.v, &c.o);
+    if let Some(u) = rt.unspecified {
+        return ev(Outcome::NoVerdict(format!("bare/{u}")), None, unspecified);
+    }
+    if let Some(st) = &rt.fail {
+        return ev(Outcome::NoVerdict(format!("bare-form-fails-C13-oracle/{}", st.kind())), None, unspecified);
+    }
+    let bare_text = usable(rt.text.as_deref().unwrap_or(""));
+    let rb = match read_val(&bare_text) {
+        Ok(v) => v,
+        Err(e) => return ev(Outcome::NoVerdict(format!("bare-form-not-readable-untyped/{e}")), None, unspecified),
+    };
+    // R1: options only
+    if c.o != Opt::default() {
+        let rt0 = tygen::roundtrip(&c.ty, &c.v, &Opt::default());
+        if rt0.fail.is_none()
+            && rt0.unspecified.is_none()
+            && let Ok(r0) = read_val(rt0.text.as_deref().unwrap_or(""))
+            && r0 != rb
+        {
+            return ev(Outcome::Violated("options-change-untyped-data", format!("default options: {r0} | these options: {rb}")), rt.text.clone(), unspecified);
+        }
+    }
+    if c.decs.count() == 0 {
+        return ev(Outcome::Held, rt.text.clone(), unspecified);
+    }
+    // R2: wrappers
+    let tol = tolerances(c, &mut unspecified);
+    let text = match tygen::emit(&DSer::root(&c.ty, &c.v, &c.decs), &c.o) {
+        Ok(t) => t,
+        Err(Stage::Panic(p)) => return ev(Outcome::Violated("panic", p), None, unspecified),
+        Err(st) => {
+            let d = st.detail();
+            if d.contains("non-scalar key") {
+                return ev(Outcome::NoVerdict("serializer-error/complex-key-inside-flow".into()), None, unspecified);
+            }
+            return ev(Outcome::Violated("serializer-error", d), None, unspecified);
+        }
+    };
+    let t = usable(&text);
+    let mut skipped = false;
+    if let Some(st) = tygen::check_one_document(&t, &mut skipped) {
+        return ev(Outcome::Violated(st.kind(), st.detail()), Some(text), unspecified);
+    }
+    let rd = match read_val(&t) {
+        Ok(v) => v,
+        Err(e) => return ev(Outcome::Violated("untyped-read-error", e), Some(text), unspecified),
+    };
+    if !val_eq(&rb, &rd, &tol) {
+        let effect = if rd.node_count() != rb.node_count() { "untyped-data-differs:structure" } else { "untyped-data-differs:leaf" };
+        return ev(Outcome::Violated(effect, format!("bare: {rb} | decorated: {rd}")), Some(text), unspecified);
+    }
+    // typed read-back into the bare type
+    match tygen::read_typed(&c.ty, &t) {
+        Err(st) => return ev(Outcome::Violated("typed-read-error", st.detail()), Some(text), unspecified),
+        Ok(back) => {
+            if !tval_eq(&c.v.sorted_maps(), &back.sorted_maps(), &tol) {
+                return ev(Outcome::Violated("typed-data-differs", format!("{back:?}")), Some(text), unspecified);
+            }
+        }
+    }
+    // read-back into the wrapper types: transparent, so exactly what the untyped read gave
+    use serde_saphyr::{Commented, FlowMap, FlowSeq, SpaceAfter};
+    let checks: [(&str, Result<Val, String>); 5] = [
+        ("Commented<Val>", read_as::<Commented<Val>>(&t).map(|w| w.0)),
+        ("FlowSeq<Val>", read_as::<FlowSeq<Val>>(&t).map(|w| w.0)),
+        ("FlowMap<Val>", read_as::<FlowMap<Val>>(&t).map(|w| w.0)),
+        ("SpaceAfter<Val>", read_as::<SpaceAfter<Val>>(&t).map(|w| w.0)),
+        ("SpaceAfter<Commented<FlowSeq<Val>>>", read_as::<SpaceAfter<Commented<FlowSeq<Val>>>>(&t).map(|w| w.0.0.0)),
+    ];
+    for (name, r) in checks {
+        match r {
+            Ok(v) if v == rd => {}
+            Ok(v) => return ev(Outcome::Violated("wrapper-type-read-differs", format!("{name}: {v} vs {rd}")), Some(text), unspecified),
+            Err(e) => return ev(Outcome::Violated("wrapper-type-read-error", format!("{name}: {e}")), Some(text), unspecified),
+        }
+    }
+    if let Val::Str(s) = &rd {
+        let a = read_as::<serde_saphyr::LitString>(&t).map(|w| w.0);
+        let b = read_as::<serde_saphyr::FoldString>(&t).map(|w| w.0);
+        if a.as_ref() != Ok(s) || b.as_ref() != Ok(s) {
+            return ev(Outcome::Violated("wrapper-type-read-differs", format!("LitString/FoldString: {a:?} {b:?} vs {s:?}")), Some(text), unspecified);
+        }
+    }
+    ev(Outcome::Held, Some(text), unspecified)
+}
+
+// ------------------------------------------------------------------ shrinking and signatures
+
+fn still_violated(c: &Case) -> bool {
+    matches!(evaluate(c).outcome, Outcome::Violated(..))
+}
+
+/// Greedy, deterministic: drop wrappers, reset options, reduce comments to one atom, replace the
+/// wrapped string contents by simpler ones, cut the tree down to the subtree holding the wrappers.
+fn shrink(c: &Case) -> Case {
+    let mut c = c.clone();
+    let atoms = comment_atoms();
+    let mut budget = 400usize;
+    loop {
+        let mut changed = false;
+        for (p, i) in c.decs.sites() {
+            if budget == 0 {
+                return c;
+            }
+            budget -= 1;
+            let mut c2 = c.clone();
+            c2.decs = c.decs.without(&p, i);
+            if c2.decs.count() > 0 && still_violated(&c2) {
+                c = c2;
+                changed = true;
+                break;
+            }
+        }
+        if changed {
+            continue;
+        }
+        for o2 in c.o.toward_default() {
+            if budget == 0 {
+                return c;
+            }
+            budget -= 1;
+            let c2 = Case { o: o2, ..c.clone() };
+            if still_violated(&c2) {
+                c = c2;
+                changed = true;
+                break;
+            }
+        }
+        if changed {
+            continue;
+        }
+        // comments -> one atom
+        'com: for (p, i) in c.decs.sites() {
+            let Some(Wrap::Commented(cur)) = c.decs.0.get(&p).and_then(|ws| ws.get(i)).cloned() else { continue };
+            for (_, a) in &atoms {
+                if *a == cur || !cur.contains(a.as_str()) {
+                    continue;
+                }
+                if budget == 0 {
+                    return c;
+                }
+                budget -= 1;
+                let mut c2 = c.clone();
+                c2.decs.0.get_mut(&p).unwrap()[i] = Wrap::Commented(a.clone());
+                if still_violated(&c2) {
+                    c = c2;
+                    changed = true;
+                    break 'com;
+                }
+            }
+        }
+        if changed {
+            continue;
+        }
+        // subtree that holds all wrappers
+        let paths: Vec<&Path> = c.decs.0.keys().collect();
+        if let Some(first) = paths.first() {
+            let mut prefix: Path = (*first).clone();
+            for p in &paths {
+                let n = prefix.iter().zip(p.iter()).take_while(|(a, b)| a == b).count();
+                prefix.truncate(n);
+            }
+            // try the deepest cut first, then shorter ones
+            for cut in (1..=prefix.len()).rev() {
+                if budget == 0 {
+                    return c;
+                }
+                budget -= 1;
+                if let Some((t, x)) = deco::node_at(&c.ty, &c.v, &prefix[..cut]) {
+                    let mut d = Decs::default();
+                    for (p, ws) in &c.decs.0 {
+                        d.0.insert(p[cut..].to_vec(), ws.clone());
+                    }
+                    let c2 = Case { ty: t.clone(), v: x.clone(), decs: d, o: c.o };
+                    if still_violated(&c2) {
+                        c = c2;
+                        changed = true;
+                        break;
+                    }
+                }
+            }
+        }
+        if !changed {
+            return c;
+        }
+    }
+}
+
+/// First matching content feature of a wrapped string.
+fn content_class(s: &str) -> &'static str {
+    let body = s.trim_end_matches('\n');
+    let trailing = s.len() - body.len();
+    if s.contains('\r') {
+        "carriage-return"
+    } else if s.is_empty() {
+        "empty"
+    } else if body.is_empty() {
+        "line-breaks-only"
+    } else if body.split('\n').find(|l| !l.is_empty()).map(|l| l.starts_with(' ')).unwrap_or(false) {
+        "leading-space"
+    } else if trailing >= 2 {
+        "trailing-breaks>=2"
+    } else if s.contains('\t') {
+        "tab"
+    } else if s.chars().count() > 1024 {
+        "longer-than-1024"
+    } else if body.contains('\n') {
+        "multi-line"
+    } else {
+        "single-line"
+    }
+}
+
+/// Shape / option classes that C13 reports on the bare value already; a wrapper can expose them on
+/// a value whose bare form happened to be laid out safely (e.g. a literal string forced inside a
+/// tuple variant). They get their own `exposes-C13-class` signatures.
+fn c13_class(min: &Case) -> Option<String> {
+    // `Commented` (a tuple struct for the emitter) on a key turns a scalar key into a `? ` key
+    let sites = deco::sites(&min.ty, &min.v);
+    let is_key = |p: &Path| p.last().map(|l| l % 2 == 0).unwrap_or(false)
+        && deco::node_at(&min.ty, &min.v, &p[..p.len() - 1]).map(|(t, x)| matches!(tygen::kind(t, x), "map")).unwrap_or(false);
+    if min.decs.0.iter().any(|(p, ws)| is_key(p) && ws.iter().any(|w| matches!(w, Wrap::Commented(_)))) && sites.iter().any(|s| s.in_key) {
+        return Some("complex-key".into());
+    }
+    if let Some(c) = tygen::c13_shape_class(&min.ty, &min.v) {
+        return Some(c.to_string());
+    }
+    if min.o.indent != 2 {
+        return Some(if min.o.indent < 2 { "indent_step<2".into() } else { "indent_step>2".into() });
+    }
+    if min.o.compact_list_indent {
+        return Some("compact_list_indent".into());
+    }
+    None
+}
+
+/// Signature of the minimal case.
+fn signature(min: &Case, effect: &str) -> String {
+    let atoms = comment_atoms();
+    let sites = deco::sites(&min.ty, &min.v);
+    let _ = &sites;
+    let mut names: Vec<&'static str> = min.decs.0.values().flatten().map(|w| w.name()).collect();
+    names.sort();
+    names.dedup();
+    // a block-string wrapper together with a flow wrapper: the string sits in the flow collection, or
+    // in a later collection that inherits a flow hint which a nested flow wrapper left unconsumed
+    let block_in_flow = min.decs.0.values().flatten().any(|w| w.is_lit() || w.is_fold()) && min.decs.0.values().flatten().any(|w| w.is_flow());
+    if block_in_flow {
+        return "C20:block-string-wrapper:inside-flow-collection".into();
+    }
+    let comment_classes: Vec<&'static str> = min
+        .decs
+        .0
+        .values()
+        .flatten()
+        .filter_map(|w| match w {
+            Wrap::Commented(c) => Some(atoms.iter().find(|(_, a)| a == c).map(|(n, _)| *n).unwrap_or("mixed")),
+            _ => None,
+        })
+        .collect();
+    // a carriage return in a comment: without it the case holds
+    if min.decs.0.values().flatten().any(|w| matches!(w, Wrap::Commented(c) if c.contains('\r'))) {
+        let mut c2 = min.clone();
+        for ws in c2.decs.0.values_mut() {
+            for w in ws.iter_mut() {
+                if let Wrap::Commented(c) = w {
+                    *c = c.replace('\r', " ");
+                }
+            }
+        }
+        if !still_violated(&c2) {
+            return "C20:comment:cr-injects-content".into();
+        }
+    }
+    // flow wrapper around a collection that holds enum variants with a payload
+    if names.iter().all(|n| *n == "FlowSeq" || *n == "FlowMap") && !names.is_empty() {
+        let variant_inside =
+            tygen::any_node(&min.ty, &min.v, &|t, x| matches!(tygen::kind(t, x), "newtype-variant" | "struct-variant" | "tuple-variant"));
+        if variant_inside {
+            return "C20:flow-wrapper:enum-variant-with-payload-inside-flow".into();
+        }
+    }
+    // strings under the remaining Lit / Fold / SpaceAfter wrappers
+    let mut content: Vec<&'static str> = Vec::new();
+    let mut wrapped_texts: Vec<String> = Vec::new();
+    let mut space_after_texts: Vec<String> = Vec::new();
+    for (p, ws) in &min.decs.0 {
+        if ws.iter().any(|w| w.is_lit() || w.is_fold()) {
+            if let Some(s) = sites.iter().find(|s| &s.path == p).and_then(|s| s.text.clone()) {
+                content.push(content_class(&s));
+                wrapped_texts.push(s);
+            }
+        } else if ws.iter().any(|w| matches!(w, Wrap::SpaceAfter)) {
+            let last = deco::last_leaf(&min.ty, &min.v, p);
+            if let Some(s) = sites.iter().find(|s| s.path == last).and_then(|s| s.text.clone()) {
+                content.push(content_class(&s));
+                space_after_texts.push(s);
+            }
+        }
+    }
+    content.sort();
+    content.dedup();
+    if names == ["SpaceAfter"] && space_after_texts.iter().any(|s| s.ends_with("\n\n")) && effect.starts_with("untyped-data-differs") {
+        return "C20:space-after:string-kept-with-trailing-breaks-gains-a-line-break".into();
+    }
+    let only_block = !names.is_empty() && names.iter().all(|n| *n == "Lit" || *n == "Fold");
+    if only_block && wrapped_texts.iter().any(|s| s.contains('\r')) {
+        return "C20:block-string-wrapper:carriage-return-in-content".into();
+    }
+    if only_block && content == ["leading-space"] && !min.decs.0.keys().all(|p| p.is_empty()) {
+        return "C20:block-string-wrapper:indentation-indicator-in-nested-position".into();
+    }
+    if only_block && content == ["empty"] {
+        return "C20:block-string-wrapper:empty-string-reads-back-as-none".into();
+    }
+    if only_block && content == ["line-breaks-only"] {
+        return "C20:block-string-wrapper:string-of-line-breaks-only".into();
+    }
+    if let Some(c) = c13_class(min) {
+        return format!("C20:exposes-C13-class:{c}");
+    }
+    let mut trig: Vec<String> = Vec::new();
+    if !comment_classes.is_empty() {
+        let mut cc = comment_classes.clone();
+        cc.sort();
+        cc.dedup();
+        trig.push(format!("comment={}", cc.join("/")));
+    }
+    if !content.is_empty() {
+        trig.push(format!("string={}", content.join("/")));
+    }
+    let opts = tygen::opt_class(&min.o);
+    let opt = opts.split(',').next().filter(|s| !s.is_empty()).unwrap_or("default-options");
+    format!("C20:{}:{}:{}", names.join("+"), if trig.is_empty() { "-".to_string() } else { trig.join(",") }, opt)
+}
+
+// ------------------------------------------------------------------ bookkeeping
+
+thread_local! {
+    static LOCAL: RefCell<BTreeMap<String, u64>> = const { RefCell::new(BTreeMap::new()) };
+    static REPORTED: RefCell<HashMap<String, u64>> = RefCell::new(HashMap::new());
+}
+
+fn lcount(key: &str, n: u64) {
+    LOCAL.with(|l| *l.borrow_mut().entry(key.to_string()).or_insert(0) += n);
+}
+
+fn flush_local(run: &Run) {
+    LOCAL.with(|l| {
+        let mut l = l.borrow_mut();
+        for (k, v) in l.iter() {
+            run.count(k, *v);
+        }
+        l.clear();
+    });
+}
+
+static EXPLORE: std::sync::Mutex<BTreeMap<String, (u64, String)>> = std::sync::Mutex::new(BTreeMap::new());
+
+fn judge(run: &Run, c: &Case, part: &str) {
+    run.eval();
+    let ev = evaluate(c);
+    for u in &ev.unspecified {
+        lcount(&format!("unspecified/{u}"), 1);
+    }
+    match ev.outcome {
+        Outcome::Held => {
+            lcount("held", 1);
+            let nonroot = c.decs.0.keys().any(|p| !p.is_empty());
+            if nonroot || c.o != Opt::default() {
+                run.nontrivial(c.hash());
+            }
+            for w in c.decs.0.values().flatten() {
+                lcount(&format!("held_with_wrapper/{}", w.name()), 1);
+            }
+        }
+        Outcome::NoVerdict(why) => {
+            let short: String = why.split('/').take(2).collect::<Vec<_>>().join("/");
+            lcount(&format!("no_verdict/{}", short.chars().take(90).collect::<String>()), 1);
+        }
+        Outcome::Violated(effect, detail) => {
+            let (sig, min) = if effect == "panic" {
+                (format!("C20:panic:{}", vcore::obs::panic_site(&detail)), c.clone())
+            } else if effect == "options-change-untyped-data" {
+                (format!("C20:options-change-untyped-data:{}", tygen::opt_class(&c.o).split(',').next().unwrap_or("")), c.clone())
+            } else {
+                let min = shrink(c);
+                let eff2 = match evaluate(&min).outcome {
+                    Outcome::Violated(e2, _) => e2,
+                    _ => effect,
+                };
+                (signature(&min, eff2), min)
+            };
+            lcount(&format!("failing_cases/{sig}"), 1);
+            lcount(&format!("effects/{effect}"), 1);
+            let n = REPORTED.with(|r| {
+                let mut r = r.borrow_mut();
+                let e = r.entry(sig.clone()).or_insert(0);
+                *e += 1;
+                *e
+            });
+            let min_text = tygen::emit(&DSer::root(&min.ty, &min.v, &min.decs), &min.o).ok();
+            if n <= 4 {
+                let mut cj = c.to_json(part);
+                cj["emitted"] = json!(ev.emitted);
+                cj["minimal"] = json!({
+                    "ty_text": min.ty.to_string(),
+                    "v": format!("{:?}", min.v),
+                    "decorations": min.decs.to_json(),
+                    "opt_non_default": min.o.non_default(),
+                    "emitted": min_text,
+                });
+                run.violation(&sig, cj, format!("{effect}: {detail}"));
+            }
+            if std::env::var_os("VERIF_EXPLORE").is_some() {
+                let mut e = EXPLORE.lock().unwrap();
+                let key = format!("{sig} <= {} {:?} {}", min.ty, min.decs.0, min.o.non_default().join(","));
+                let key: String = key.chars().take(300).collect();
+                let ent = e.entry(key).or_insert_with(|| {
+                    let d2 = match evaluate(&min).outcome {
+                        Outcome::Violated(e2, d2) => format!("{e2}: {}", d2.chars().take(300).collect::<String>()),
+                        other => format!("{other:?}"),
+                    };
+                    (0, format!("{:?}\n      {d2}", min_text.map(|t| t.chars().take(300).collect::<String>())))
+                });
+                ent.0 += 1;
+            }
+        }
+    }
+}
+
+// ------------------------------------------------------------------ generators
+
+fn applicable(site: &deco::Site, rng: &mut Rng, atoms: &[(&'static str, String)]) -> Vec<Wrap> {
+    // returns the wrapper stack for this site, outermost first
+    let mut ws: Vec<Wrap> = Vec::new();
+    let generic = |rng: &mut Rng| if rng.bool() { Wrap::Commented(random_comment(rng, atoms)) } else { Wrap::SpaceAfter };
+    let n_generic = *rng.pick(&[0usize, 1, 1, 2]);
+    for _ in 0..n_generic {
+        ws.push(generic(rng));
+    }
+    match site.kind {
+        "seq" | "seq-empty" | "tuple" if rng.chance(2, 3) => {
+            let at = rng.below(ws.len() + 1);
+            ws.insert(at, Wrap::FlowSeq);
+        }
+        "map" | "map-empty" | "struct" if rng.chance(2, 3) => {
+            let at = rng.below(ws.len() + 1);
+            ws.insert(at, Wrap::FlowMap);
+        }
+        _ => {}
+    }
+    if site.text.is_some() && rng.chance(2, 3) {
+        ws.push(rng.pick(&[Wrap::Lit, Wrap::LitOwned, Wrap::Fold, Wrap::FoldOwned]).clone());
+    }
+    if ws.is_empty() {
+        ws.push(generic(rng));
+    }
+    ws
+}
+
+fn random_opt(rng: &mut Rng) -> Opt {
+    if rng.chance(1, 4) {
+        return Opt::default();
+    }
+    // yaml_12 is left to C13 most of the time (it only adds the directive)
+    let mut bits = rng.below(128) as u8;
+    if rng.chance(3, 4) {
+        bits &= !(1 << 5);
+    }
+    let mut o = Opt::from_bits(bits, *rng.pick(&[2usize, 2, 2, 4, 1, 3, 8]));
+    if rng.chance(1, 2) {
+        o.min_fold_chars = *rng.pick(&[0usize, 8, 64]);
+    }
+    if rng.chance(1, 2) {
+        o.folded_wrap_chars = *rng.pick(&[8usize, 20, 40, 200]);
+    }
+    o
+}
+
+fn distinct_key_scalars(ty: &Ty, v: &TVal) -> bool {
+    !tygen::any_node(ty, v, &|t, x| match (t, x) {
+        (Ty::Map(k, _), TVal::Map(ps)) => {
+            let mut seen = std::collections::HashSet::new();
+            ps.iter().any(|(a, _)| !seen.insert(serde_saphyr::to_string(&TSer(k, a)).unwrap_or_default()))
+        }
+        _ => false,
+    })
+}
+
+/// Types whose bare layout is not among C13's findings: no tuple structs, no tuple variants, only
+/// scalar keys (so that what fails is due to the wrappers).
+fn random_clean_ty(rng: &mut Rng, depth: usize) -> Ty {
+    use vcore::ty::{Fields, VariantTy};
+    let scalar = |rng: &mut Rng| match rng.below(12) {
+        0..=3 => Ty::Str,
+        4 | 5 => Ty::I32,
+        6 => Ty::Bool,
+        7 => Ty::F64,
+        8 => Ty::Char,
+        9 => Ty::Unit,
+        10 => Ty::enumeration(rng.below(8) as u8, rng.below(6) as u8, vec![VariantTy::Unit; rng.range(1, 3)]),
+        _ => rng.pick(&[Ty::I64, Ty::U8, Ty::U64, Ty::I8]).clone(),
+    };
+    if depth <= 1 {
+        return scalar(rng);
+    }
+    let d = depth - 1;
+    match rng.below(14) {
+        0 => {
+            let inner = random_clean_ty(rng, d);
+            if inner.absorbs_null() { inner } else { Ty::opt(inner) }
+        }
+        1 => Ty::newtype(rng.below(8) as u8, random_clean_ty(rng, d)),
+        2..=4 => Ty::seq(random_clean_ty(rng, d)),
+        5 | 6 => Ty::Tuple((0..rng.range(1, 3)).map(|_| random_clean_ty(rng, d)).collect()),
+        7 | 8 => Ty::map(rng.pick(&[Ty::Str, Ty::Str, Ty::I32, Ty::Bool, Ty::Char]).clone(), random_clean_ty(rng, d)),
+        9..=11 => Ty::strukt(rng.below(8) as u8, (0..rng.range(1, 4)).map(|_| random_clean_ty(rng, d)).collect(), false),
+        _ => {
+            let n = rng.range(1, 3);
+            let mut variants = Vec::new();
+            for _ in 0..n {
+                variants.push(match rng.below(3) {
+                    0 => VariantTy::Unit,
+                    1 => VariantTy::Newtype(random_clean_ty(rng, d)),
+                    _ => VariantTy::Struct(Fields::new((0..rng.range(1, 3)).map(|_| random_clean_ty(rng, d)).collect(), false)),
+                });
+            }
+            Ty::enumeration(rng.below(8) as u8, rng.below(6) as u8, variants)
+        }
+    }
+}
+
+fn is_clean(ty: &Ty, v: &TVal) -> bool {
+    tygen::c13_shape_class(ty, v).is_none()
+}
+
+fn random_case(rng: &mut Rng, atoms: &[(&'static str, String)], lines: &[String]) -> Option<Case> {
+    let depth = rng.range(1, 5);
+    let cfg = TyCfg { nullable_in_option: false, defaults: false, deny_unknown: false, bytes: false, floats: true };
+    // 5 of 6 cases use the clean grammar with indent_step 2, the rest the full C13 grammar and any option
+    let clean = !rng.chance(1, 6);
+    let t = if clean { random_clean_ty(rng, depth) } else { ty::random_ty_with(rng, depth, &cfg) };
+    let v = ty::random_val(rng, &t);
+    // new string contents
+    let cell = RefCell::new(rng.clone());
+    let (t, v) = tygen::map_nodes(&t, &v, &|tt, x| match &x {
+        TVal::Str(_) if matches!(tt, Ty::Str) && cell.borrow_mut().chance(1, 2) => {
+            let s = random_content(&mut cell.borrow_mut(), lines);
+            (tt, TVal::Str(s))
+        }
+        _ => (tt, x),
+    });
+    *rng = cell.into_inner();
+    if !distinct_key_scalars(&t, &v) || !tygen::keys_distinct(&t, &v) {
+        return None;
+    }
+    let sites = deco::sites(&t, &v);
+    let mut decs = Decs::default();
+    let n = *rng.pick(&[1usize, 1, 2, 2, 3, 4, 6]);
+    for _ in 0..n {
+        let s = rng.pick(&sites);
+        if decs.0.contains_key(&s.path) {
+            continue;
+        }
+        decs.0.insert(s.path.clone(), applicable(s, rng, atoms));
+    }
+    let mut o = random_opt(rng);
+    if clean {
+        o.indent = 2;
+        o.compact_list_indent = false;
+    }
+    let mut c = Case { ty: t, v, decs, o };
+    make_tolerances_unambiguous(&mut c);
+    Some(c)
+}
+
+fn main() {
+    let run = Run::from_args("C20");
+    if let Some(rep) = run.is_replay() {
+        let cj = &rep["case"];
+        if cj["part"].as_str() == Some("derived") {
+            derived::replay(&run, cj);
+            run.finish(Finish::new("replay"));
+        }
+        let ty = Ty::from_json(&cj["ty"]);
+        let v: Option<TVal> = cj["v"].as_str().and_then(|s| serde_json::from_str(s).ok());
+        let (Some(ty), Some(v)) = (ty, v) else {
+            eprintln!("harness error: replay file has no usable ty/v");
+            std::process::exit(2);
+        };
+        let c = Case { ty, v, decs: Decs::from_json(&cj["decorations"]), o: Opt::from_json(&cj["opt"]) };
+        judge(&run, &c, "replay");
+        flush_local(&run);
+        run.finish(Finish::new("replay"));
+    }
+    let tier = run.tier;
+    let atoms = comment_atoms();
+    let lines = content_lines();
+
+    // ---- part A (systematic): one wrapper stack at every position of every small tree
+    let g = TyGrammar::full();
+    let only_derived = std::env::var_os("C20_ONLY_DERIVED").is_some();
+    let small: Vec<(Ty, TVal)> = if only_derived { Vec::new() } else { ty::small_pairs(tier.pick(3, 3), &g, tier.pick(4, 8)) };
+    run.count("systematic/host_pairs", small.len() as u64);
+    run.count("systematic/host_pairs_outside_C13_finding_shapes", small.iter().filter(|(t, v)| is_clean(t, v)).count() as u64);
+    let sys_opts: Vec<Opt> = {
+        let d = Opt::default();
+        vec![
+            d,
+            Opt { indent: 4, compact_list_indent: true, ..d },
+            Opt { quote_all: true, ..d },
+            Opt { prefer_block_scalars: false, min_fold_chars: 0, ..d },
+            Opt { folded_wrap_chars: 8, tagged_enums: true, empty_as_braces: false, ..d },
+        ]
+    };
+    let sys_comments = ["note", "x\ry: 1", "a\nb # c: d", "\u{2028}- z\u{85}w", "--- ]}"];
+    par_range(small.len(), |i| {
+        let (t, v) = &small[i];
+        let sites = deco::sites(t, v);
+        for s in &sites {
+            let mut stacks: Vec<Vec<Wrap>> = vec![vec![Wrap::SpaceAfter], vec![Wrap::SpaceAfter, Wrap::Commented("note".into())]];
+            for cm in sys_comments {
+                stacks.push(vec![Wrap::Commented(cm.to_string())]);
+            }
+            match s.kind {
+                "seq" | "seq-empty" | "tuple" => {
+                    stacks.push(vec![Wrap::FlowSeq]);
+                    stacks.push(vec![Wrap::Commented("note".into()), Wrap::FlowSeq]);
+                    stacks.push(vec![Wrap::SpaceAfter, Wrap::FlowSeq]);
+                }
+                "map" | "map-empty" | "struct" => {
+                    stacks.push(vec![Wrap::FlowMap]);
+                    stacks.push(vec![Wrap::SpaceAfter, Wrap::FlowMap]);
+                }
+                _ => {}
+            }
+            if s.text.is_some() {
+                for w in [Wrap::Lit, Wrap::LitOwned, Wrap::Fold, Wrap::FoldOwned] {
+                    stacks.push(vec![w.clone()]);
+                    stacks.push(vec![Wrap::SpaceAfter, w.clone()]);
+                    stacks.push(vec![Wrap::Commented("note".into()), w]);
+                }
+            }
+            for (k, st) in stacks.iter().enumerate() {
+                for (j, o) in sys_opts.iter().enumerate() {
+                    let mut decs = Decs::default();
+                    decs.0.insert(s.path.clone(), st.clone());
+                    let mut c = Case { ty: t.clone(), v: v.clone(), decs, o: *o };
+                    make_tolerances_unambiguous(&mut c);
+                    if c.decs.count() == 0 {
+                        continue;
+                    }
+                    run.observe("wrapper_positions(kind/in-key/wrappers)", &format!("{}/{}/{}", s.kind, s.in_key, st.iter().map(|w| w.name()).collect::<Vec<_>>().join(">")));
+                    judge(&run, &c, "systematic");
+                    if (i * 7 + k * 3 + j) % 9973 == 0 {
+                        run.sample(|| {
+                            let mut cj = c.to_json("systematic");
+                            cj["emitted"] = json!(tygen::emit(&DSer::root(&c.ty, &c.v, &c.decs), &c.o).ok());
+                            cj
+                        });
+                    }
+                }
+            }
+        }
+        flush_local(&run);
+    });
+
+    // ---- part B (options only): R1 on every small tree under all option vectors of C13's cube
+    {
+        let small2: Vec<(Ty, TVal)> = if only_derived { Vec::new() } else { ty::small_pairs(2, &g, 8) };
+        par_range(small2.len(), |i| {
+            let (t, v) = &small2[i];
+            for indent in [2usize, 1, 4] {
+                for bits in 0..64u8 {
+                    let c = Case { ty: t.clone(), v: v.clone(), decs: Decs::default(), o: Opt::from_bits(bits, indent) };
+                    judge(&run, &c, "options-only");
+                }
+            }
+            flush_local(&run);
+        });
+    }
+
+    // ---- part C: random decorated trees
+    let n_random = if only_derived { 0 } else { std::env::var("C20_RANDOM").ok().and_then(|s| s.parse().ok()).unwrap_or(tier.pick(250_000usize, 3_000_000)) };
+    par_range(n_random, |i| {
+        let mut rng = Rng::stream(run.seed, i as u64);
+        let Some(c) = random_case(&mut rng, &atoms, &lines) else {
+            lcount("random/skipped-keys-with-equal-scalars", 1);
+            return;
+        };
+        if c.decs.count() == 0 {
+            return;
+        }
+        if i % 16 == 0 {
+            let sites = deco::sites(&c.ty, &c.v);
+            for (p, ws) in &c.decs.0 {
+                if let Some(s) = sites.iter().find(|s| &s.path == p) {
+                    run.observe("wrapper_positions(kind/in-key/wrappers)", &format!("{}/{}/{}", s.kind, s.in_key, ws.iter().map(|w| w.name()).collect::<Vec<_>>().join(">")));
+                }
+            }
+        }
+        judge(&run, &c, "random");
+        if i % 9973 == 0 {
+            run.sample(|| {
+                let mut cj = c.to_json("random");
+                cj["v"] = json!(format!("{:?}", c.v).chars().take(400).collect::<String>());
+                cj["emitted"] = json!(tygen::emit(&DSer::root(&c.ty, &c.v, &c.decs), &c.o).ok().map(|t| t.chars().take(600).collect::<String>()));
+                cj
+            });
+        }
+        if i % 256 == 0 {
+            flush_local(&run);
+        }
+    });
+
+    // ---- part D: derived structs with wrapper fields
+    let n_derived = tier.pick(20_000usize, 300_000);
+    par_range(n_derived, |i| {
+        let mut rng = Rng::stream(run.seed ^ 0xd0c, i as u64);
+        derived::check(&run, &mut rng, &atoms, &lines, i);
+    });
+
+    par_range(vcore::run::threads() * 4, |_| flush_local(&run));
+    flush_local(&run);
+
+    if std::env::var_os("VERIF_EXPLORE").is_some() {
+        let e = EXPLORE.lock().unwrap();
+        for (k, (n, ex)) in e.iter() {
+            eprintln!("{n:>8}  {k}\n      {ex}");
+        }
+        eprintln!("distinct (signature, minimal case) pairs: {}", e.len());
+    }
+
+    let fin = Finish::new(
+        "a case (type, value, wrappers at node paths, option vector) is non-trivial when it was judged (held) and has >= 1 wrapper on a non-root node or an option that differs from the default; distinct by hash(type, value, decorations, options)",
+    )
+    .exhaustive(
+        "systematic part only: every (type, value) of the C13 shape grammar with <= 3 type nodes (value lists strided) x every node position (incl. map keys) x every applicable single wrapper stack from a fixed list (SpaceAfter, Commented with 5 comment texts incl. CR/LF/U+2028/U+0085, FlowSeq/FlowMap alone and under Commented/SpaceAfter, the four block-string wrappers alone and under SpaceAfter/Commented) x 5 option vectors; options-only relation on all pairs with <= 2 type nodes x 2^6 booleans x indent {2,1,4}",
+    )
+    .assume("the bare value under the same options must pass the C13 oracle, otherwise no verdict here (C13 reports it)")
+    .assume("documented lossy behaviour is unspecified: folded interior line breaks, clip-chomping of several trailing breaks under FoldStr/FoldString, SpaceAfter around LitStr/LitString")
+    .assume("a complex key inside a flow collection is rejected by the serializer (`non-scalar key`): no verdict")
+    .min_nontrivial(tier.pick(100_000, 1_000_000));
+    run.finish(fin);
+}
